@@ -100,6 +100,13 @@ CHECKS = {
             'Every program of the bounded grammar is analysed and every one of its execution paths enumerated; per-read '
             'diagnoses and unused-variable reports must equal the path verdicts (exact part) and no observed name error may go '
             'unreported (no-miss part).', '2/C09'),
+    'C11': ('bounded-exhaustive programs (all sequences of <=2 statements over 39 statements; all programs of <=4 similar '
+            'assignments) x every pattern derivable by the generalisation steps (whole, statement, expression -> ___/__expr__, '
+            'identifier -> _var_, all identifiers -> own placeholders, dropped sibling, and compositions) on the real '
+            'find_matches, plus explicit-code searches while another submission is loaded; oracle: by construction >=1 match '
+            'and a match binding each placeholder to what it replaced',
+            'Every (program, derived pattern) pair in the bounded space is executed; a derived pattern that fails to match '
+            'or no match with the original bindings is a violation.', '2/C11'),
 }
 
 PENDING = ['C02', 'C03', 'C04', 'C05', 'C06', 'C07', 'C08', 'C09', 'C10', 'C11', 'C12', 'C13', 'C14', 'C15',
